@@ -289,3 +289,103 @@ Section Examples.
     il_initby s = [("r2", 3%N); ("r1", 2%N)] /\ il_seen s = [("r2", Some 1%N); ("r1", Some 0%N); ("r1", Some 0%N)].
   Proof. split; vm_compute; reflexivity. Qed.
 End Examples.
+
+(* ---- (7) Signals are looked up by the key under which the step REGISTERED them (Call/StepSig.v): the
+   plugin-level CallSignal and the step's own CallSignal agree on which handler a key names, whatever the
+   signals' own IDs are; the step's own CallSignal (a native value, no Unserialize in front) runs the handler
+   once with exactly that value iff the value passes the schema registered under the key. ---- *)
+From Verif Require Import Call.StepSig.
+
+Theorem C11_signal_factors : forall words pu e fuel ps p run sid st sig ss raw n,
+  alookup sid p = Some st -> alookup sig (sd_signals st) = Some ss ->
+  s_unser words pu e fuel ss raw = Ok n ->
+  call_signal words pu e fuel ps p run sid sig raw = call_signal_direct words pu e fuel ps p run sid sig n.
+Proof. exact signal_factors. Qed.
+Print Assumptions C11_signal_factors.
+
+Theorem C11_signal_rejected_raw : forall words pu e fuel ps p run sid st sig ss raw er,
+  alookup sid p = Some st -> alookup sig (sd_signals st) = Some ss ->
+  s_unser words pu e fuel ss raw = Err er ->
+  call_signal words pu e fuel ps p run sid sig raw = (SErr (CEInvalidInput er), [], ps).
+Proof. exact signal_rejected_raw. Qed.
+Print Assumptions C11_signal_rejected_raw.
+
+Theorem C11_direct_signal_unknown : forall words pu e fuel ps p run sid st sig input,
+  alookup sid p = Some st -> alookup sig (sd_signals st) = None ->
+  call_signal_direct words pu e fuel ps p run sid sig input = (SErr CENoSuchSignal, [], ps).
+Proof. exact direct_signal_unknown. Qed.
+Print Assumptions C11_direct_signal_unknown.
+
+Theorem C11_direct_signal_handler_iff : forall words pu e fuel ps p run sid st sig ss input,
+  alookup sid p = Some st -> alookup sig (sd_signals st) = Some ss ->
+  ((exists d, log_of (call_signal_direct words pu e fuel ps p run sid sig input) = [LSignal sid sig run d input]) <->
+   (exists u, s_validate words pu e fuel ss input = Ok u)) /\
+  ((forall u, s_validate words pu e fuel ss input <> Ok u) ->
+   log_of (call_signal_direct words pu e fuel ps p run sid sig input) = []).
+Proof. exact direct_signal_handler_iff. Qed.
+Print Assumptions C11_direct_signal_handler_iff.
+
+Theorem C11_direct_signal_only_its_entry : forall words pu e fuel ps run sid sig input (st1 st2 : step_d) p1 p2,
+  alookup sid p1 = Some st1 -> alookup sid p2 = Some st2 ->
+  alookup sig (sd_signals st1) = alookup sig (sd_signals st2) ->
+  sd_has_init st1 = sd_has_init st2 ->
+  call_signal_direct words pu e fuel ps p1 run sid sig input = call_signal_direct words pu e fuel ps p2 run sid sig input.
+Proof. exact direct_signal_only_its_entry. Qed.
+Print Assumptions C11_direct_signal_only_its_entry.
+
+(* histories extended by direct signal calls contain the histories of (5) *)
+Theorem C11_histories_extend : forall words pu e fuel p ops,
+  exec_ops2 words pu e fuel p (map OpBase ops) = exec_ops words pu e fuel p ops.
+Proof. exact exec_ops2_base. Qed.
+Print Assumptions C11_histories_extend.
+
+Section ExamplesSig.
+  Open Scope string_scope.
+  Let e0 := mkEnv [] [] (mkOracles (fun _ => None) (fun _ => true)).
+  Let prop_ (t : schema) (req : bool) : property := mkProp t None req [] [] [] None [] false false None.
+  Let in_scope := SScope [("In", SObject "In" false [("a", prop_ (SInt (Some 0%Z) None None) true)])] "In".
+  Let sig_a := SScope [("Sig", SObject "Sig" false [("x", prop_ (SString None (Some 3%Z) None) false)])] "Sig".
+  Let sig_b := SScope [("Sig", SObject "Sig" false [("n", prop_ (SInt None None None) true)])] "Sig".
+  (* two signals with DIFFERENT data schemas under the keys "stop" / "pause" *)
+  Let p0 : plugin := [("step1", mkStepD in_scope [] [("stop", sig_a); ("pause", sig_b)] true)].
+  Let raw_a := VMap t_any_map false [(vstr "x", vstr "s")].
+  Let nat_a := VMap t_str_map false [(vstr "x", vstr "s")].
+  Example C11_ex_signal_by_key :
+    call_signal [] (fun _ _ => None) e0 50 [] p0 "r1" "step1" "stop" raw_a
+      = (SOk tt, [LSignal "step1" "stop" "r1" (Some 0%N) nat_a], [("step1", mkTab [("r1", Some 0%N)] 1%N)])
+    /\ call_signal_direct [] (fun _ _ => None) e0 50 [] p0 "r1" "step1" "stop" nat_a
+      = (SOk tt, [LSignal "step1" "stop" "r1" (Some 0%N) nat_a], [("step1", mkTab [("r1", Some 0%N)] 1%N)])
+    /\ log_of (call_signal_direct [] (fun _ _ => None) e0 50 [] p0 "r1" "step1" "pause" nat_a) = []
+    /\ call_signal_direct [] (fun _ _ => None) e0 50 [] p0 "r1" "step1" "generic-id" nat_a = (SErr CENoSuchSignal, [], []).
+  Proof. split; [|split; [|split]]; vm_compute; reflexivity. Qed.
+End ExamplesSig.
+
+(* (5') the per-run step-data statement for histories over ALL FOUR entry points: CallStep, CallSignal, the step's own
+   Call and the step's own CallSignal (sop2 / exec_ops2, Call/StepSig.v) *)
+From Verif Require Import Proofs.StepSigHist.
+Theorem C11_stepdata_once_all_entry_points : forall words pu e fuel p ops,
+  let res := fst (exec_ops2 words pu e fuel p ops) in
+  let ps := snd (exec_ops2 words pu e fuel p ops) in
+  (forall sid st, alookup sid p = Some st -> sd_has_init st = true ->
+     t_inits (tab_of ps sid) = N.of_nat (List.length (t_entries (tab_of ps sid))) /\
+     NoDup (map fst (t_entries (tab_of ps sid))) /\ NoDup (map snd (t_entries (tab_of ps sid)))) /\
+  (forall en, In en (all_logs res) ->
+     alookup (lk_run en) (t_entries (tab_of ps (lk_step en))) = Some (lk_data en)) /\
+  (forall e1 e2, In e1 (all_logs res) -> In e2 (all_logs res) ->
+     lk_step e1 = lk_step e2 -> lk_run e1 = lk_run e2 -> lk_data e1 = lk_data e2).
+Proof. exact stepdata_once_history2. Qed.
+Print Assumptions C11_stepdata_once_all_entry_points.
+
+Example C11_ex_history_direct_signal :
+  let e0 := mkEnv [] [] (mkOracles (fun _ => None) (fun _ => true)) in
+  let prop_ (t : schema) (req : bool) : property := mkProp t None req [] [] [] None [] false false None in
+  let in_scope := SScope [("In", SObject "In" false [("a", prop_ (SInt (Some 0%Z) None None) true)])] "In" in
+  let sig_a := SScope [("Sig", SObject "Sig" false [("x", prop_ (SString None (Some 3%Z) None) false)])] "Sig" in
+  let p0 : plugin := [("step1", mkStepD in_scope [] [("stop", sig_a)] true)] in
+  let nat_a := VMap t_str_map false [(vstr "x", vstr "s")] in
+  let ops := [OpDirectSignal "r1" "step1" "stop" nat_a;
+              OpBase (OpSignal "r1" "step1" "stop" (VMap t_any_map false [(vstr "x", vstr "s")]));
+              OpDirectSignal "r2" "step1" "stop" nat_a] in
+  snd (exec_ops2 [] (fun _ _ => None) e0 50 p0 ops) = [("step1", mkTab [("r2", Some 1%N); ("r1", Some 0%N)] 2%N)]
+  /\ map lk_data (all_logs (fst (exec_ops2 [] (fun _ _ => None) e0 50 p0 ops))) = [Some 0%N; Some 0%N; Some 1%N].
+Proof. split; vm_compute; reflexivity. Qed.
